@@ -1,9 +1,71 @@
 import RegexVerif.Sexp
+import RegexVerif.Model.StringFilter
+import RegexVerif.Driver.C03
 
 namespace RegexVerif.Driver
 open RegexVerif Sexp
 
-/-- protocol lines with head `c02` (stub) -/
-def handleC02 (_args : List Sexp) : String := "(unimplemented)"
+open RegexVerif.StringFilter in
+/-- `(set (chars r…) (neg b) (range lo hi)|(range) (dist d))` -/
+def setB? (e : Sexp) : Option SetB :=
+  match e with
+  | .list (.atom "set" :: fs) =>
+    match (lookup "chars" fs).bind (·.mapM nat?), (lookup "neg" fs).bind (·.head?) |>.bind bool?,
+          lookup "range" fs, (lookup "dist" fs).bind (·.head?) |>.bind int? with
+    | some chars, some neg, some rg, some d =>
+      let range : Option (Option (Nat × Nat)) :=
+        match rg with
+        | [] => some none
+        | [lo, hi] => match lo.nat?, hi.nat? with
+          | some lo, some hi => some (some (lo, hi))
+          | _, _ => none
+        | _ => none
+      range.map fun range => { chars := chars, negated := neg, range := range, distance := d }
+    | _, _, _, _ => none
+  | _ => none
+
+open RegexVerif.StringFilter in
+/-- leg Sf.  `(strfilter (rtl b) (usesstart b) (hasopts b) (mode M) (minlen L) (prefix b…) (prefixes (b…)…)
+     (sets <set>…) (fchar c) (fstring b…) (fdist d) (lal (str b…) (ci b) (char c) (chars r…) (loop b))|(lal) (input b…))`
+    — strings as BYTE lists, `chars`/`fchar`/`char` as runes — ↦ `(ok <kind>|none (c ok)…)`: which filter the
+    model of `newStringPrefixFilter` installs and its answer for every `startAt` in `0 … len(input)+1` -/
+def handleStrFilter (fs : List Sexp) : String :=
+  let one (k : String) : Option Sexp := (lookup k fs).bind (·.head?)
+  let nats (k : String) : Option (List Nat) := (lookup k fs).bind (·.mapM nat?)
+  let lal : Option (Option LitB) :=
+    match lookup "lal" fs with
+    | some [] => some none
+    | some ls =>
+      let o (k : String) : Option Sexp := (lookup k ls).bind (·.head?)
+      match (lookup "str" ls).bind (·.mapM nat?), (o "ci").bind bool?, (o "char").bind nat?,
+            (lookup "chars" ls).bind (·.mapM nat?), (o "loop").bind bool? with
+      | some str, some ci, some ch, some chars, some loop =>
+        some (some { str := str, strIgnoreCase := ci, char := ch, chars := chars, hasLoopSet := loop })
+      | _, _, _, _, _ => none
+    | none => none
+  match (one "rtl").bind bool?, (one "usesstart").bind bool?, (one "hasopts").bind bool?,
+        ((one "mode").bind sym?).bind mode?, (one "minlen").bind nat?, nats "prefix",
+        (lookup "prefixes" fs).bind (·.mapM nats?), (lookup "sets" fs).bind (·.mapM setB?) with
+  | some rtl, some usesStart, some hasOpts, some mode, some minLen, some pre, some pres, some sets =>
+    match (one "fchar").bind nat?, nats "fstring", (one "fdist").bind int?, lal, nats "input" with
+    | some fchar, some fstring, some fdist, some lal, some input =>
+      let o : StrOpts := { mode := mode, minLen := minLen, leadingPrefix := pre, prefixes := pres, sets := sets,
+                           fixedChar := fchar, fixedString := fstring, fixedDistance := fdist, literalAfterLoop := lal }
+      let code : CodeB := { rightToLeft := rtl, usesStartAnchor := usesStart, opts := if hasOpts then some o else none }
+      match newStringPrefixFilter code with
+      | none => "(ok none)"
+      | some (kind, f) =>
+        let ans := (List.range (input.length + 2)).map fun startAt =>
+          let r := f input startAt
+          Sexp.list [ofNat r.1, ofBool r.2]
+        toString (Sexp.list (.atom "ok" :: .atom kind.name :: ans))
+    | _, _, _, _, _ => "(bad-op)"
+  | _, _, _, _, _, _, _, _ => "(bad-op)"
+
+/-- protocol lines with head `c02`: `(c02 (strfilter …))` ↦ see `handleStrFilter` -/
+def handleC02 (args : List Sexp) : String :=
+  match args with
+  | [.list (.atom "strfilter" :: fs)] => handleStrFilter fs
+  | _ => "(unimplemented)"
 
 end RegexVerif.Driver
